@@ -37,7 +37,10 @@ Inductive case :=
 | CaseDescent (start : name) (steps : list dstep) (obs_zone : name) (obs_level : nat)
   (* lab: the server for [auth] sent [m] for question [q]; what became visible *)
 | CaseLab (auth : name) (level : nat) (q : question) (m : umsg)
-          (vis : list bool) (glue_obs deleg_obs : list name) (later_bad : bool).
+          (vis : list bool) (glue_obs deleg_obs : list name) (later_bad : bool)
+  (* lab: the same, but the server echoed question [echoed] instead of [q] (right ID, any rcode) *)
+| CaseLabEcho (auth : name) (q echoed : question) (m : umsg)
+              (vis : list bool) (glue_obs deleg_obs : list name) (later_bad : bool).
 
 (* ---------------------------------------------------------------- helpers *)
 Fixpoint list_eqb {A} (eqb : A -> A -> bool) (a b : list A) : bool :=
@@ -173,6 +176,12 @@ Definition check_case (c : case) : bool :=
       same_names (model_glue_names level auth q m) glue &&
       forallb (fun n => spec_strictly_below auth n) deleg &&
       negb later
+  | CaseLabEcho auth q echoed m vis glue deleg later =>
+      if question_matches q [echoed]
+      then true (* an echo that matches is an ordinary exchange: covered by CaseLab *)
+      else (* the message never leaves the transport: nothing of it is visible anywhere *)
+        forallb negb vis && match glue with [] => true | _ => false end &&
+        match deleg with [] => true | _ => false end && negb later
   end.
 
 (* -------------------------------------------------------------- spec_case *)
@@ -225,5 +234,11 @@ Definition spec_case (c : case) : bool :=
       forallb (fun p => implb (snd p) (spec_in_zone auth (rr_owner (fst p)))) (combine (u_answer m) vis) &&
       forallb (spec_in_zone auth) glue &&
       forallb (spec_strictly_below auth) deleg &&
+      negb later
+  | CaseLabEcho auth q echoed m vis glue deleg later =>
+      (* a reply that does not carry the outstanding question is not used at all *)
+      implb (negb (spec_question_ok q [echoed]))
+            (forallb negb vis && match glue with [] => true | _ => false end &&
+             match deleg with [] => true | _ => false end) &&
       negb later
   end.
